@@ -32,7 +32,7 @@ func c01BGen(t *rapid.T) C01BCase {
 	if c.Big == 0 {
 		c.Size = pick(t, "bytes", 64<<10, 256<<10, 1<<20)
 	} else {
-		c.Size = pick(t, "elems", 500, 3000, 12000)
+		c.Size = pick(t, "elems", 500, 1500, 4000)
 	}
 	return c
 }
